@@ -68,6 +68,8 @@ type Job struct {
 	Scenario *gen.Scenario `json:"scenario,omitempty"`
 	Trace    bool          `json:"trace"`
 	KeepGoing bool         `json:"keep_going"`
+	// RunSeedOverride (gen mode): generate the scenario of this run seed instead of (Seed, Start)
+	RunSeedOverride uint64 `json:"run_seed_override,omitempty"`
 }
 
 // Record is one line of the worker's output file.
@@ -197,6 +199,9 @@ func Main(t *testing.T, props []*Prop) {
 		// emit the scenario of one run index without executing it (the orchestrator needs it when the
 		// worker died inside that run)
 		rs := RunSeed(job.Seed, job.Property, job.Start)
+		if job.RunSeedOverride != 0 {
+			rs = job.RunSeedOverride
+		}
 		sc := prop.Gen(rs, job.Tier)
 		sc.Property = job.Property
 		sc.RunSeed = rs
